@@ -33,6 +33,8 @@ impl SafeFileCreator {
 
         // This matches the permissions and ownership of the parent directory
         let file = create_file(&temp_path)?;
+        #[cfg(xet_verif)]
+        crate::verif::point("safe_file:temp_created");
         let writer = BufWriter::new(file);
 
         Ok(SafeFileCreator {
@@ -98,11 +100,17 @@ impl SafeFileCreator {
             return Ok(());
         };
 
+        #[cfg(xet_verif)]
+        crate::verif::point("safe_file:before_flush");
         writer.flush()?;
         drop(writer);
+        #[cfg(xet_verif)]
+        crate::verif::point("safe_file:flushed");
 
         // Replace the original file with the new file
         fs::rename(&self.temp_path, dest_path)?;
+        #[cfg(xet_verif)]
+        crate::verif::point("safe_file:renamed");
 
         if let Some(metadata) = self.original_metadata.as_ref() {
             set_file_metadata(dest_path, metadata, false)?;
